@@ -155,8 +155,17 @@ class Verifier:
         self.assumptions.add(text)
 
     def seq_to_val(self, eng, v):
-        from .values import fresh_val
-        return fresh_val("seqval")
+        """Injection of a byte string into the opaque sort: constants are interned (so that
+        comparisons of an unknown object with the same literal agree), others get one value each."""
+        from .values import fresh_val, Val
+        const = getattr(v, "const", None)
+        if const is not None:
+            return z3.Const("bytes!" + const.hex(), Val)
+        cached = getattr(v, "_val", None)
+        if cached is None:
+            cached = fresh_val("seqval")
+            v._val = cached
+        return cached
 
     def find_method_def(self, cls, name):
         """Locate `def name` in class `cls` or its bases (by class name over dulwich modules)."""
@@ -416,7 +425,11 @@ class Verifier:
         eng.entry_env = dict(frame.env)
         is_gen = any(isinstance(n, (ast.Yield, ast.YieldFrom)) for n in _walk_no_defs(fn))
         if is_gen:
-            frame.env["__yielded__"] = eng.alloc(VChunks(seq_const(b""), 0))
+            if con.options.get("yields") == "any":
+                from .models import make_list
+                frame.env["__yielded__"] = make_list(eng, [], fn)
+            else:
+                frame.env["__yielded__"] = eng.alloc(VChunks(seq_const(b""), 0))
         frame.is_gen = is_gen
         return frame
 
